@@ -38,6 +38,7 @@ pub fn g2_alphabet(prop: &str) -> Vec<&'static str> {
         ],
         "C17" => vec![
             "\x1b7", "\x1b8", "\x1b[s", "\x1b[u", "\x1b[?1048h", "\x1b[?1048l", "\x1b[?1049h", "\x1b[?1049l", "\x1b[?1047h", "\x1b[?1047l", "\x1b[!p", "a",
+            "\x1b[?1047;1048h", "\x1b[?1048;47h", "\x1b[?1047;1048l", "\x1b[?1049;1048h",
             "ab", "\x1b[H", "\x1b[2;2H", "\x1b[9;9H", "\x1b[C", "\x1b[B", "\x1b[31m", "\x1b[1;44m", "\x1b[m", "\x1b[?6h", "\x1b[?6l", "\x1b[?7l", "\x1b[?7h",
             "\x1b[2;3r", "\x1b[1;2r", "\n", "\x1b[K",
         ],
